@@ -117,6 +117,40 @@ def r_big(form, L, masked):
     cover("two-frames")
 
 
+def r_resume2(form):
+    """as R-resume, but the interrupted read has already been served by TWO partial transport reads (cut positions solver choices
+    over the header and the first payload bytes) when the timeout strikes"""
+    quiet_logging()
+    from websocket._exceptions import WebSocketTimeoutException
+    L = 126 if form == 16 else 130
+    p2 = sx.sym_bytes("q", 2)
+    fin, opcode, payload, stream = _big_stream(form, L, 0, server_frame(1, 2, p2))
+    hdr = 2 + (2 if form == 16 else 8)
+    c1 = sx.choice("c1", hdr + 3) + 1
+    c2 = c1 + sx.choice("c2", 4) + 1
+    sock = FakeSock([stream[:c1], stream[c1:c2], "timeout", stream[c2:], "eof"])
+    ws = new_ws(sock)
+    frames, timeouts = [], 0
+    while len(frames) < 2 and timeouts < 3:
+        try:
+            frames.append(ws.recv_frame())
+        except WebSocketTimeoutException:
+            timeouts += 1
+        except (sx.Control, sx.ConcreteFailure, sx.ReplayMismatch):
+            raise
+        except Exception as e:
+            sx.require(False, "resumed receive raised %s" % type(e).__name__, form=form, c1=c1, c2=c2)
+            return
+    sx.require(len(frames) == 2 and timeouts == 1, "both frames are delivered after exactly one timeout", form=form, c1=c1, c2=c2, got=len(frames))
+    if len(frames) != 2:
+        return
+    f1, f2 = frames
+    sx.require(len(f1.data) == L, "payload length of the resumed frame", form=form, c1=c1, c2=c2, got=len(f1.data))
+    sx.require(f1.data == payload, "payload of the resumed frame (no byte lost, duplicated or borrowed from the next frame)", form=form, c1=c1, c2=c2)
+    sx.require(sx.And(f2.opcode == 2, f2.data == p2), "the following frame is parsed from its true start after a resumed read", form=form, c1=c1, c2=c2)
+    cover("resumed2")
+
+
 def r_resume(form, masked):
     """frame with a 16-/64-bit length whose header arrives in two pieces with a receive timeout in between (cut position a
     solver choice over every header byte): after the retry the frame and the FOLLOWING frame decode as without the timeout"""
@@ -306,6 +340,9 @@ def obligations(tier):
         Obligation("R-after-reject", r_after_reject, [dict(n=n, frags=f) for n in (1, 2, 3) for f in (1, 2)],
                    bounds="ill-formed text message of 1..3 symbolic bytes in 1 or 2 fragments, followed by a binary and a text frame",
                    must_cover=["after-reject"], kernel=["continuous_frame.extract", "continuous_frame.add", "recv_data_frame"]),
+        Obligation("R-resume2", r_resume2, [dict(form=f) for f in (16, 64)],
+                   bounds="as R-resume with two partial reads (every pair of cut positions over header + first payload bytes) before the timeout",
+                   must_cover=["resumed2"], kernel=["frame_buffer.recv_strict", "recv_frame"]),
         Obligation("R-reconnect", _u_reconnect, [dict(n=n, lost=l) for n in (1, 2) for l in ("between-fragments", "inside-frame")],
                    bounds="connection lost inside a frame / between fragments, connect() again on the same object, then a text frame of 1..2 arbitrary bytes "
                           "(shared with C06 U-reconnect)", must_cover=["re-accepted"], kernel=["WebSocket.connect", "frame_buffer", "continuous_frame"]),
